@@ -35,6 +35,7 @@ use rustc_span::Span;
 struct Stash(Vec<(LocalDefId, Body<'static>)>);
 unsafe impl Send for Stash {}
 static STASH: Mutex<Stash> = Mutex::new(Stash(Vec::new()));
+static EXT_ADTS: Mutex<Vec<DefId>> = Mutex::new(Vec::new());
 
 fn my_mir_promoted<'tcx>(
     tcx: TyCtxt<'tcx>,
@@ -503,6 +504,12 @@ impl<'a, 'tcx> Cx<'a, 'tcx> {
                 if let ty::Adt(a, _) = pty.kind() {
                     self.s.push_str(",\"adt\":");
                     esc(&dps(tcx, a.did()), self.s);
+                    if !a.did().is_local() {
+                        let mut e = EXT_ADTS.lock().unwrap();
+                        if !e.contains(&a.did()) {
+                            e.push(a.did());
+                        }
+                    }
                 }
                 self.s.push('}');
             }
@@ -798,6 +805,31 @@ fn type_facts<'tcx>(tcx: TyCtxt<'tcx>, s: &mut String) {
             }
             s.push_str("]}");
         }
+    }
+    // external enums whose discriminant is inspected somewhere in the crate
+    let ext: Vec<DefId> = EXT_ADTS.lock().unwrap().clone();
+    for did in ext {
+        let adt = tcx.adt_def(did);
+        if !adt.is_enum() {
+            continue;
+        }
+        if !first {
+            s.push_str(",\n");
+        }
+        first = false;
+        s.push_str("{\"path\":");
+        esc(&dps(tcx, did), s);
+        s.push_str(",\"kind\":\"Enum\",\"external\":true,\"variants\":[");
+        for (i, (vi, v)) in adt.variants().iter_enumerated().enumerate() {
+            if i > 0 {
+                s.push(',');
+            }
+            s.push_str("{\"name\":");
+            esc(&v.name.to_string(), s);
+            let d = adt.discriminant_for_variant(tcx, vi);
+            let _ = write!(s, ",\"discr\":{},\"fields\":[]}}", d.val);
+        }
+        s.push_str("]}");
     }
     s.push_str("\n],\n\"consts\":[\n");
     let mut first = true;
